@@ -9,6 +9,7 @@ use; each theorem is the round trip `generate → abstract writer → parseRoot`
 * `bind_generate_F4` : F3 + `wrapper` (wrapped list elements)
 * `bind_generate_F5` : F4 + `sequence` groups (every interleaving `next_value` rolls out is read back:
                        the parser binds by name, so the instances need not have lists of equal length)
+* `bind_generate_F6` : F5 + `Attributes` maps and `init=False` fields with a primitive default
 * `bind_generate_FN` : any subset of these features
 
 The value-level exclusions of `FN.valOK` that are genuine defects of the code have machine-checked
@@ -235,5 +236,92 @@ def w9 : Val := .obj (s "Root") [(s "t", .list [.prim (.int 1), .prim (.int 2)])
 theorem tokens_in_sequence_witness :
     ctxOK featF5 Γw9 = false ∧ generate e0 Γw9 {} w9 = .error (.leaked "TypeError") :=
   ⟨by decide, rfl⟩
+
+/-! #### `Attributes` maps and `init=False` fields -/
+
+def featF6 : Feat :=
+  { nillable := true, tokens := true, wrapper := true, sequence := true, fixed := true, anyAttrs := true }
+
+/-- **C01, fragment F6** = F5 + one `Attributes` map per class (any `namespace`) + `init=False` fields
+with a primitive default.  The map's keys must be admitted by the var, distinct from the declared
+attributes and not in the `xsi` namespace; its values must not look like `prefix:rest`; a nillable
+class with a map (or a non-nillable class with a map under a nillable var) needs content. -/
+theorem bind_generate_F6 (e : BEnv) (Γ : Ctx) (cfg : SerCfg) (pcfg : ParserConfig) (c : ClassId) (v : Val)
+    (hΓ : ctxOK featF6 Γ = true) (hv : valOK e Γ c v = true) :
+    ∃ evs t, generate e Γ cfg v = .ok evs ∧ eventsTree (isDatatype Γ) evs = .ok t ∧
+      parseRoot e Γ pcfg c t = .ok (v, 0) :=
+  bind_generate_FN featF6 e Γ cfg pcfg c v hΓ hv
+
+def aMap (index : Nat) (nss : List String) : XmlVar :=
+  { mkVarN index "m" "m" .attributes [.prim .str] (default := .dictFactory) with namespaces := nss.map s }
+def aK : XmlVar := mkVarN 2 "k" "k" .attribute [.prim .int]
+def aFx : XmlVar := { mkVarN 3 "fx" "fx" .attribute [.prim .str] (default := .val (.str (s "v1"))) with init := false }
+def aFe : XmlVar := { mkVarN 4 "fe" "fe" .element [.prim .int] (default := .val (.int 7)) with init := false }
+def aC : XmlVar := mkVarN 5 "c" "c" .element [.cls (s "Leaf")] (clazz := some (s "Leaf")) (listElement := true)
+  (default := .listFactory)
+
+/-- `Leaf`: nillable class with a `##other`-free map (`##any`) and an optional `str` element -/
+def aLeaf : ClassInfo := classOf "Leaf"
+  { mkMeta "Leaf" "Leaf" none [mkVarN 2 "z" "z" .element [.prim .str]] [] with
+      nillable := true, anyAttributes := [aMap 1 ["##any"]] }
+  [⟨s "m", true, some (.attrs [])⟩, ⟨s "z", true, some .none⟩]
+/-- `Root`: a map for unqualified and `urn:q` attributes, a declared `int` attribute, a fixed
+attribute, a fixed element and a list of `Leaf` -/
+def aRoot : ClassInfo := classOf "Root"
+  { mkMeta "Root" "Root" none [aFe, aC] [aK, aFx] with anyAttributes := [aMap 1 ["", "urn:q"]] }
+  [⟨s "m", true, some (.attrs [])⟩, ⟨s "k", true, some .none⟩, ⟨s "fx", false, some (.prim (.str (s "v1")))⟩,
+   ⟨s "fe", false, some (.prim (.int 7))⟩, ⟨s "c", true, some (.list [])⟩]
+def Γ6 : Ctx := twoClasses aLeaf aRoot
+
+def aLeafV (m : List (String × String)) (z : Val) : Val :=
+  .obj (s "Leaf") [(s "m", .attrs (m.map fun kv => (s kv.1, s kv.2))), (s "z", z)]
+def v6 : Val := .obj (s "Root")
+  [(s "m", .attrs [(s "x", s "1"), (s "{urn:q}y", s "a b"), (s "u", s "http://h/p")]), (s "k", .prim (.int 3)),
+   (s "fx", .prim (.str (s "v1"))), (s "fe", .prim (.int 7)),
+   (s "c", .list [aLeafV [("{urn:r}w", "")] (.prim (.str (s "zz"))), aLeafV [] (.prim (.str (s "q")))])]
+
+example : ctxOK featF6 Γ6 = true ∧ ctxOK featF5 Γ6 = false ∧ valOK e0 Γ6 (s "Root") v6 = true := by decide
+
+example : ∃ evs t, generate e0 Γ6 {} v6 = .ok evs ∧ eventsTree (isDatatype Γ6) evs = .ok t ∧
+    parseRoot e0 Γ6 {} (s "Root") t = .ok (v6, 0) :=
+  bind_generate_F6 e0 Γ6 {} {} (s "Root") v6 (by decide) (by decide)
+
+/-- the fixed fields are written although they are not `__init__` parameters, and the attributes of
+the map come before the declared ones (the map has the smaller index) -/
+example : (match treeOf Γ6 v6 with | .node _ a _ _ _ _ => a.map (·.1)) =
+    [s "x", s "{urn:q}y", s "u", s "k", s "fx"] := by rfl
+
+/-- witness 10: a key of the map that is also a declared attribute: `Root(m={"k": "5"})` -/
+def w10 : Val := .obj (s "Root")
+  [(s "m", .attrs [(s "k", s "5")]), (s "k", .none), (s "fx", .prim (.str (s "v1"))), (s "fe", .prim (.int 7)),
+   (s "c", .list [])]
+
+/-- the declared attribute takes the value: the instance comes back as `Root(k=5, m={})` -/
+theorem attributes_key_declared_witness :
+    ctxOK featF6 Γ6 = true ∧ valOK e0 Γ6 (s "Root") w10 = false ∧
+    generate e0 Γ6 {} w10 = .ok (evsOf Γ6 w10) ∧
+    eventsTree (isDatatype Γ6) (evsOf Γ6 w10) = .ok (treeOf Γ6 w10) ∧
+    parseRoot e0 Γ6 {} (s "Root") (treeOf Γ6 w10) = .ok (.obj (s "Root")
+      [(s "m", .attrs []), (s "k", .prim (.int 5)), (s "fx", .prim (.str (s "v1"))), (s "fe", .prim (.int 7)),
+       (s "c", .list [])], 0) :=
+  ⟨by decide, by decide, rfl, rfl, rfl⟩
+
+/-- witness 11: a nillable class with a map, without content: `Root(c=[Leaf()])` -/
+def w11 : Val := .obj (s "Root")
+  [(s "m", .attrs []), (s "k", .none), (s "fx", .prim (.str (s "v1"))), (s "fe", .prim (.int 7)),
+   (s "c", .list [aLeafV [] .none])]
+
+def t11 : Tree := .node (s "Root") [(s "fx", s "v1")] [] none
+  [.node (s "fe") [] [] (some (s "7")) [] none, .node (s "c") [(xsiNil, s "true")] [] none [] none] none
+
+/-- the element is written as `xsi:nil="true"` and the parser puts that attribute into the map -/
+theorem nillable_class_attributes_witness :
+    ctxOK featF6 Γ6 = true ∧ valOK e0 Γ6 (s "Root") w11 = false ∧
+    generate e0 Γ6 {} w11 = .ok (evsOf Γ6 w11) ∧
+    eventsTree (isDatatype Γ6) (evsOf Γ6 w11) = .ok t11 ∧
+    parseRoot e0 Γ6 {} (s "Root") t11 = .ok (.obj (s "Root")
+      [(s "m", .attrs []), (s "k", .none), (s "fx", .prim (.str (s "v1"))), (s "fe", .prim (.int 7)),
+       (s "c", .list [.obj (s "Leaf") [(s "m", .attrs [(xsiNil, s "true")]), (s "z", .none)]])], 0) :=
+  ⟨by decide, by decide, rfl, rfl, rfl⟩
 
 end Props.C01
